@@ -4,6 +4,12 @@ Q1 = "indices1d = tree.query_ball_point(np.transpose(n_1d_arrays(centers, 2)), r
 Q2 = "index1d = tree.query_ball_point(center, r=size / 2, p=np.inf)[0]"
 WR = "window_region = [dimension + (-1) ** (i % 2) * size / 2 for i, dimension in enumerate(region)]"
 ENTRIES = [
+    dict(name="neutral: rolling_window builds its tree in a new helper", expect="DISCHARGED",
+         edits=[("coordinates.py", "    centers = grid_coordinates(window_region, spacing=spacing, shape=shape, adjust=adjust)\n    tree = kdtree(coordinates, use_pykdtree=False)\n", "    centers = grid_coordinates(window_region, spacing=spacing, shape=shape, adjust=adjust)\n    tree = _window_tree(coordinates)\n"),
+                ("coordinates.py", "def _check_rolling_window_overlap(region, size, shape, spacing):", "def _window_tree(coordinates):\n    return kdtree(coordinates, use_pykdtree=False)\n\ndef _check_rolling_window_overlap(region, size, shape, spacing):")]),
+    dict(name="rolling_window: new helper builds the tree on reversed coordinates", rule="R2",
+         edits=[("coordinates.py", "    centers = grid_coordinates(window_region, spacing=spacing, shape=shape, adjust=adjust)\n    tree = kdtree(coordinates, use_pykdtree=False)\n", "    centers = grid_coordinates(window_region, spacing=spacing, shape=shape, adjust=adjust)\n    tree = _window_tree(coordinates)\n"),
+                ("coordinates.py", "def _check_rolling_window_overlap(region, size, shape, spacing):", "def _window_tree(coordinates):\n    return kdtree(coordinates[::-1], use_pykdtree=False)\n\ndef _check_rolling_window_overlap(region, size, shape, spacing):")]),
     dict(name="rolling: r = size", rule="R2", file=C, old=Q1, new=Q1.replace("r=size / 2", "r=size")),
     dict(name="rolling: Euclidean norm", rule="R2", file=C, old=Q1, new=Q1.replace("p=np.inf", "p=2")),
     dict(name="rolling: default norm", rule="R2", file=C, old=Q1, new=Q1.replace(", p=np.inf", "")),
